@@ -894,6 +894,15 @@ func main() {
 		b, _ := json.MarshalIndent(js, "", " ")
 		os.WriteFile(os.Args[3], b, 0o644)
 	}
+	// leaf functions translated to Lean (go2lean.go), next to Facts.lean
+	writeFuncs(filepath.Join(filepath.Dir(os.Args[2]), "Funcs.lean"))
+}
+
+func writeFile(path, content string) {
+	if err := os.WriteFile(path, []byte(content), 0o644); err != nil {
+		fmt.Fprintln(os.Stderr, err)
+		os.Exit(1)
+	}
 }
 
 func exprString(e ast.Expr) string {
